@@ -394,7 +394,21 @@ fn runstats_case(ctx: &Ctx, rep: &mut Report, case: u64, g: &mut Sm64) {
     let as_f64 = case % 3 == 1;
     match guard(|| {
         // RunStats::from is generic over the element type: also feed it the same numbers as f64
-        let rs = if as_f64 { RunStats::from(arr.mapv(|x| x as f64).view()) } else { RunStats::from(arr.view()) };
+        // ... and as views that are not in standard (row-major) layout: column-major storage, or a
+        // draws-major buffer seen through permuted axes
+        let rs = if as_f64 {
+            RunStats::from(arr.mapv(|x| x as f64).view())
+        } else if case % 3 == 2 {
+            use ndarray::ShapeBuilder;
+            let mut f = ndarray::Array3::<f32>::zeros((c, n, p).f());
+            f.assign(&arr);
+            RunStats::from(f.view())
+        } else if case % 6 == 0 {
+            let buf = ndarray::Array3::from_shape_fn((n, c, p), |(t, i, j)| arr[[i, t, j]]);
+            RunStats::from(buf.view().permuted_axes([1, 0, 2]))
+        } else {
+            RunStats::from(arr.view())
+        };
         let (rh, es) = split_rhat_mean_ess(arr.view());
         (rs, rh, es)
     }) {
